@@ -877,3 +877,234 @@ func litFields(v ssa.Value) (map[string][]ssa.Value, *ssa.Alloc) {
 	}
 	return out, al
 }
+
+// ---- condition atoms and region cuts ---------------------------------------
+
+// atomsOf collects what a (condition) value is computed from: "field:NAME",
+// "const:VALUE", "call:CALLEE", "param:NAME", "global:NAME", "arg:STRING" (constant string
+// arguments of calls), walking through operators, loads and call arguments.
+func atomsOf(v ssa.Value) map[string]bool {
+	out := map[string]bool{}
+	seen := map[ssa.Value]bool{}
+	var walk func(v ssa.Value, depth int)
+	walk = func(v ssa.Value, depth int) {
+		if v == nil || seen[v] || depth > 12 {
+			return
+		}
+		seen[v] = true
+		switch x := v.(type) {
+		case *ssa.Const:
+			if x.Value != nil {
+				out["const:"+x.Value.ExactString()] = true
+			} else {
+				out["const:nil"] = true
+			}
+		case *ssa.Parameter:
+			out["param:"+x.Name()] = true
+		case *ssa.FreeVar:
+			out["param:"+x.Name()] = true
+		case *ssa.Global:
+			out["global:"+x.Name()] = true
+		case *ssa.BinOp:
+			out["op:"+x.Op.String()] = true
+			walk(x.X, depth+1)
+			walk(x.Y, depth+1)
+		case *ssa.UnOp:
+			walk(x.X, depth+1)
+		case *ssa.FieldAddr:
+			out["field:"+fieldName(x.X.Type(), x.Field)] = true
+			walk(x.X, depth+1)
+		case *ssa.Field:
+			out["field:"+fieldName(x.X.Type(), x.Field)] = true
+			walk(x.X, depth+1)
+		case *ssa.Call:
+			n := calleeName(x)
+			if b, ok := x.Call.Value.(*ssa.Builtin); ok {
+				n = b.Name()
+			}
+			out["call:"+n] = true
+			for _, a := range x.Call.Args {
+				if s, ok := constString(a); ok {
+					out["arg:"+s] = true
+				}
+				walk(a, depth+1)
+			}
+			if x.Call.IsInvoke() {
+				walk(x.Call.Value, depth+1)
+			}
+		case *ssa.Extract:
+			out[fmt.Sprintf("extract:%d", x.Index)] = true
+			walk(x.Tuple, depth+1)
+		case *ssa.Phi:
+			for _, e := range x.Edges {
+				walk(e, depth+1)
+			}
+		case *ssa.Alloc:
+			for _, st := range storesTo(x) {
+				walk(st.Val, depth+1)
+			}
+		case *ssa.MakeInterface:
+			walk(x.X, depth+1)
+		case *ssa.ChangeType:
+			walk(x.X, depth+1)
+		case *ssa.Convert:
+			walk(x.X, depth+1)
+		case *ssa.TypeAssert:
+			walk(x.X, depth+1)
+		case *ssa.Slice:
+			walk(x.X, depth+1)
+		case *ssa.IndexAddr:
+			walk(x.X, depth+1)
+			walk(x.Index, depth+1)
+		case *ssa.Index:
+			walk(x.X, depth+1)
+		case *ssa.Lookup:
+			walk(x.X, depth+1)
+			walk(x.Index, depth+1)
+		}
+	}
+	walk(v, 0)
+	return out
+}
+
+func hasAll(m map[string]bool, keys ...string) bool {
+	for _, k := range keys {
+		if !m[k] {
+			return false
+		}
+	}
+	return true
+}
+
+// condEdge describes one If: the edge on which the (normalised) condition
+// holds and the one on which it does not. A `!=` comparison or a `!x` is
+// normalised to its positive form, so "holds" means X == Y / x is true.
+type condEdge struct {
+	ifi     *ssa.If
+	cond    ssa.Value // normalised (innermost) condition
+	atoms   map[string]bool
+	holds   edge
+	fails   edge
+	isEqNeq bool
+	binop   *ssa.BinOp
+}
+
+func condEdgesOf(f *ssa.Function) []condEdge {
+	var out []condEdge
+	for _, b := range f.Blocks {
+		if len(b.Instrs) == 0 {
+			continue
+		}
+		ifi, ok := b.Instrs[len(b.Instrs)-1].(*ssa.If)
+		if !ok {
+			continue
+		}
+		c := ifi.Cond
+		pos := true
+		for {
+			if u, ok := c.(*ssa.UnOp); ok && u.Op == token.NOT {
+				c = u.X
+				pos = !pos
+				continue
+			}
+			break
+		}
+		ce := condEdge{ifi: ifi, cond: c}
+		if bo, ok := c.(*ssa.BinOp); ok {
+			ce.binop = bo
+			if bo.Op == token.NEQ {
+				pos = !pos
+				ce.isEqNeq = true
+			} else if bo.Op == token.EQL {
+				ce.isEqNeq = true
+			}
+		}
+		ce.atoms = atomsOf(c)
+		if pos {
+			ce.holds, ce.fails = edge{b, 0}, edge{b, 1}
+		} else {
+			ce.holds, ce.fails = edge{b, 1}, edge{b, 0}
+		}
+		out = append(out, ce)
+	}
+	return out
+}
+
+// returnsOf lists Return instructions of f.
+func returnsOf(f *ssa.Function) []*ssa.Return {
+	var out []*ssa.Return
+	for _, b := range f.Blocks {
+		for _, in := range b.Instrs {
+			if r, ok := in.(*ssa.Return); ok {
+				out = append(out, r)
+			}
+		}
+	}
+	return out
+}
+
+// errorResultIdx: index of the (last) error result of f, or -1.
+func errorResultIdx(sig *types.Signature) int {
+	for i := sig.Results().Len() - 1; i >= 0; i-- {
+		if isErrorType(sig.Results().At(i).Type()) {
+			return i
+		}
+	}
+	return -1
+}
+
+// nilReturnEdges: the (block, via-edge) places where f returns a nil error.
+// A Return whose error operand is a Phi is split per incoming edge: the
+// returned list contains, for every way to return nil, the set of edges to
+// test: either the return block itself (from == nil edge) or the predecessor edge.
+type retSite struct {
+	ret  *ssa.Return
+	pred *ssa.BasicBlock // non-nil: only when entered from this predecessor (phi edge)
+	val  ssa.Value
+}
+
+func errReturnSites(f *ssa.Function) []retSite {
+	idx := errorResultIdx(f.Signature)
+	if idx < 0 {
+		return nil
+	}
+	var out []retSite
+	for _, r := range returnsOf(f) {
+		v := r.Results[idx]
+		if phi, ok := v.(*ssa.Phi); ok && phi.Block() == r.Block() {
+			for i, e := range phi.Edges {
+				out = append(out, retSite{r, r.Block().Preds[i], e})
+			}
+			continue
+		}
+		out = append(out, retSite{r, nil, v})
+	}
+	return out
+}
+
+// siteReachable: is the return site reachable from entry with the cut applied?
+func siteReachable(f *ssa.Function, s retSite, cut []edge) bool {
+	reach := reachable(f, nil, cut)
+	if s.pred == nil {
+		return reach[s.ret.Block()]
+	}
+	if !reach[s.pred] {
+		return false
+	}
+	// the edge pred -> ret block itself must not be cut
+	cs := map[edge]bool{}
+	for _, e := range cut {
+		cs[e] = true
+	}
+	for i, su := range s.pred.Succs {
+		if su == s.ret.Block() && !cs[edge{s.pred, i}] {
+			return true
+		}
+	}
+	return false
+}
+
+func isBuiltinCall(c ssa.CallInstruction, name string) bool {
+	b, ok := c.Common().Value.(*ssa.Builtin)
+	return ok && b.Name() == name
+}
